@@ -3,8 +3,23 @@
    answer:   one snapshot per cut offset (state after the first <cut> bytes), joined by '#':
              err r c top bot|cp,cp,...;cp,...;...      (one ';'-separated group per screen row)
    request:  wid <cp> -> width
-   request:  wfix <h> <cols> <old top> <old left> <cursor row> <buffer lines> <cursor column> -> <top> <left>  (DrawDefs.wfix, fix_left) *)
+   request:  wfix <h> <cols> <old top> <old left> <cursor row> <buffer lines> <cursor column> -> <top> <left>  (DrawDefs.wfix, fix_left)
+   request:  put <c|l> <h> <top> <xrow> <count> <hex pref> <hex post> <hex register> <old row ids> <new row ids>
+             (DrawPutDefs.vc_put_chars / vc_put_lines + put_screen: the rows are abstract -- integer ids; <old row ids> are the h rows
+             shown before the put, <new row ids> what vi_drawrow draws for the rows top .. top+h-1 of the buffer after it)
+   answer:   <r1> <r2> <n> <hex line>,<hex line>,...|<predicted row ids>     (the vi_drawfix arguments, the lines the text is cut into) *)
 let pr = Printf.printf
+let ints s = List.map int_of_string (List.filter (fun w -> w <> "") (String.split_on_char ',' s))
+let do_put mode h top xrow cnt pref post reg olds news =
+  let c = if mode = "c" then vc_put_chars (nat_of_int xrow) (bytes_of_hex pref) (bytes_of_hex post) (bytes_of_hex reg) (nat_of_int cnt)
+          else vc_put_lines (nat_of_int xrow) (bytes_of_hex reg) (nat_of_int cnt) in
+  let news = Array.of_list (ints news) in
+  let f i = let k = int_of_nat i - top in if k >= 0 && k < Array.length news then news.(k) else (-1) in
+  let rows = put_screen (-2) f (nat_of_int top) (nat_of_int h) c (ints olds) in
+  pr "%d %d %d %s|%s\n" (int_of_z c.p_r1) (int_of_z c.p_r2) (int_of_z c.p_n)
+    (String.concat "," (List.map hex_of_bytes (text_lines c.p_text)))
+    (String.concat "," (List.map string_of_int rows))
+
 let snapshot b t =
   Buffer.add_string b (Printf.sprintf "%d %d %d %d %d|" (int_of_nat t.t_err) (int_of_nat t.t_r) (int_of_nat t.t_c)
                          (int_of_nat t.t_top) (int_of_nat t.t_bot));
@@ -45,6 +60,8 @@ let () =
          let z s = z_of_int (int_of_string s) in
          let (t, _) = wfix (z ptop) (z xrow) (z h) (z len) in
          pr "%d %d\n" (int_of_z t) (int_of_z (fix_left (z pleft) (z pos) (z cols)))
+       | ["put"; mode; h; top; xrow; cnt; pref; post; reg; olds; news] ->
+         do_put mode (int_of_string h) (int_of_string top) (int_of_string xrow) (int_of_string cnt) pref post reg olds news
        | ["wid"; c] -> pr "%d\n" (int_of_nat (cp_wid (n_of_int (int_of_string c))))
        | _ -> pr "error bad request\n");
       flush stdout)
